@@ -1,7 +1,7 @@
 #!/usr/bin/env python3
 """Regenerates the generated part of DESIGN.md (between the GENERATED markers) from the
 evidence files, known_findings.json and seeded/*/meta.json."""
-import json, glob, os, re
+import os, json, glob, os, re
 V='/verif'
 out=[]
 out.append("### A. Rules as built (from the last quick run's evidence)\n")
@@ -28,6 +28,23 @@ for d in sorted(glob.glob(V+'/seeded/*')):
     needs=m['needs_to_manifest'].replace('|','/')
     if len(needs)>220: needs=needs[:217]+'…'
     out.append("| %s | %s | %s | %s |" % (m['seed'], m['breaks_property'], needs, det))
+out.append("\n### D. Behaviour-preserving variants that must stay quiet (refactors/)\n")
+out.append("| Variant | Files touched | What it reshapes (from the author's note) |")
+out.append("|---|---|---|")
+import re
+for d in sorted(glob.glob(V+'/refactors/*')):
+    name=os.path.basename(d)
+    files=sorted(set(re.findall(r'^\+\+\+ b/(\S+)', open(d+'/patch.diff').read(), re.M)))
+    note=''
+    if os.path.exists(d+'/notes.md'):
+        for line in open(d+'/notes.md'):
+            line=line.strip()
+            if line and not line.startswith('#'):
+                note=line
+                break
+    note=note.replace('|','/')
+    if len(note)>200: note=note[:197]+'…'
+    out.append("| %s | %s | %s |" % (name, ", ".join(files), note))
 txt="\n".join(out)+"\n"
 p=V+'/DESIGN.md'
 s=open(p).read()
